@@ -81,6 +81,7 @@ func returnClearWorks() bool {
 }
 
 func RunC13(env *sim.Env) {
+	defer DropIfTooExpensive(env)
 	t := env.Tape
 	if t.Choose(10) == 9 {
 		// one run in ten is a re-entrant program judged by a reference model (c13rec.go)
@@ -156,7 +157,9 @@ func RunC13(env *sim.Env) {
 			pools.MarkLastReleased(o.Failed())
 			return o, nested
 		}
+		stepsBefore := Steps()
 		O, nestedAt := run(&jetSet{set}, call)
+		costO := Steps() - stepsBefore
 		writersO := lastWriters
 		if O.Failed() {
 			continue // a world whose fault-free run fails is not judged here
@@ -165,7 +168,7 @@ func RunC13(env *sim.Env) {
 		if !ok || len(ins) == 0 {
 			continue
 		}
-		if O.Probes.Calls > 400 || len(O.Out) > 1<<16 {
+		if O.Probes.Calls > 400 || len(O.Out) > 1<<16 || costO > MaxStepsPerExecution {
 			env.Stat("counters:mains_skipped_too_large", 1)
 			continue
 		}
